@@ -3,14 +3,16 @@
    (stop_cause, stop_queue facts, owner_in, all_done, started, fresh_fields, ...), the invariants, the proofs
    and the non-vacuity Examples are in srv/SrvC08.v (effects of critical sections, invariant bundle, no crash),
    srv/SrvC08b.v (stop once, status, WaitStatus after the handlers), srv/SrvC08c.v (cancellation, retained
-   notifications, restart), srv/SrvC08q.v (quiescence, termination), srv/SrvC08u.v (unblocking channels), srv/SrvC08r.v (drained notifications)
-   and srv/SrvC08x.v (scenarios).
+   notifications, restart), srv/SrvC08q.v (quiescence, termination), srv/SrvC08u.v (unblocking channels), srv/SrvC08r.v (drained notifications),
+   srv/SrvC08x.v (scenarios), srv/SrvC08y.v (the flags of ServerStatus) srv/SrvC08n.v (notifications handled)
+   srv/SrvC08w.v (callback watchers), srv/SrvC08v.v (restart after WaitStatus)
+   and srv/SrvC08m.v (no livelock: a measure every release window decreases).
    All statements quantify over ALL configurations, ALL reachable states (reach = window boundaries, reachf =
    every intermediate state too) and ALL traces; there are no bounds.
    OWaitRet carries an [option stopcause]: "at most one flag" holds by type. *)
 From Coq Require Import List NArith ZArith Bool Arith Lia.
 From RecordUpdate Require Import RecordUpdate.
-From JV Require Import Bytes Msg SrvModel SrvLemmas SrvBasics SrvC10 SrvC08 SrvC08b SrvC08c SrvC08q SrvC08r SrvC08s SrvC08u.
+From JV Require Import Bytes Msg SrvModel SrvLemmas SrvBasics SrvC10 SrvC08 SrvC08b SrvC08c SrvC08q SrvC08r SrvC08s SrvC08u SrvC08y SrvC08n SrvC08w SrvC08v SrvC08m.
 Import ListNotations.
 
 (** 1. No interleaving makes the process panic: none of the model's crash outcomes (CrNilChannel = deliver
@@ -99,6 +101,86 @@ Theorem c08_status_cause : forall c s l s1 os tr s2 oss, reach c s -> step s l =
 Proof. exact status_cause. Qed.
 Print Assumptions c08_status_cause.
 
+(* the three fields of ServerStatus: [status_of e] = (Err, Stopped, Closed) is WaitStatus of server.go applied to
+   the recorded cause (Closed for io.EOF or a closing error, Stopped for errServerStopped, Err otherwise) *)
+Theorem c08_status_of_table :
+  status_of None = (None, false, false) /\ status_of (Some SCStop) = (None, true, false) /\
+  status_of (Some SCEOF) = (None, false, true) /\ status_of (Some SCClosing) = (None, false, true) /\
+  status_of (Some SCOther) = (Some SCOther, false, false).
+Proof. exact status_of_table. Qed.
+Print Assumptions c08_status_of_table.
+
+Theorem c08_status_one_flag : forall e, st_stopped e && st_closed e = false.
+Proof. exact status_of_one_flag. Qed.
+Print Assumptions c08_status_one_flag.
+
+Theorem c08_status_err_no_flag : forall e, st_err e <> None ->
+  st_stopped e = false /\ st_closed e = false /\ st_err e = Some SCOther.
+Proof. exact status_of_err_no_flag. Qed.
+Print Assumptions c08_status_err_no_flag.
+
+(* [flags s l r]: r is classified by the window (state s, label l) that stopped the run: Stopped iff it was a Stop
+   call, Closed iff the reader held EOF or a closing error, Err iff it held another error; never two at once *)
+Theorem c08_flags_spec : forall s l r, flags s l r <->
+  (st_stopped r = true <-> (exists n, l = LRelStop n) \/ (l = LRelRead /\ rd s = RHold (FErr SCStop))) /\
+  (st_closed r = true <-> l = LRelRead /\ (rd s = RHold (FErr SCEOF) \/ rd s = RHold (FErr SCClosing))) /\
+  (st_err r <> None <-> l = LRelRead /\ rd s = RHold (FErr SCOther)) /\
+  (st_err r = None \/ st_err r = Some SCOther) /\
+  st_stopped r && st_closed r = false.
+Proof. exact flags_spec. Qed.
+Print Assumptions c08_flags_spec.
+
+Theorem c08_flags_go_spec : forall s l r, flags_go s l r <->
+  (st_stopped r = true <-> exists n, l = LRelStop n) /\
+  (st_closed r = true <-> l = LRelRead /\ (rd s = RHold (FErr SCEOF) \/ rd s = RHold (FErr SCClosing))) /\
+  (st_err r <> None <-> l = LRelRead /\ rd s = RHold (FErr SCOther)) /\
+  (st_err r = None \/ st_err r = Some SCOther) /\
+  st_stopped r && st_closed r = false.
+Proof. exact flags_go_spec. Qed.
+Print Assumptions c08_flags_go_spec.
+
+(* [last_stop s0 tr i s l]: window i of the run of tr from s0 lies in the stopped period begun by label l in state s *)
+Theorem c08_last_stop_spec : forall s0 tr i s l, last_stop s0 tr i s l <->
+  exists pre mid post oss0 s1 os1,
+    tr = pre ++ l :: mid ++ post /\ length pre + length mid = i /\ ~ In LStart mid /\
+    run s0 pre = Some (s, oss0) /\ step s l = Some (s1, os1) /\ running s = true /\ running s1 = false.
+Proof. exact last_stop_spec. Qed.
+Print Assumptions c08_last_stop_spec.
+
+(* every WaitStatus return between the stop window and the next Start *)
+Theorem c08_status_flags : forall c s l s1 os tr s2 oss, reach c s -> step s l = Some (s1, os) ->
+  running s = true -> running s1 = false -> run s1 tr = Some (s2, oss) -> ~ In LStart tr ->
+  forall os' r, In os' (os :: oss) -> In (OWaitRet r) os' -> flags s l r.
+Proof. exact status_flags. Qed.
+Print Assumptions c08_status_flags.
+
+(* every WaitStatus return of every trace: either the server was never started (zero status), or the flags are those
+   of the window that stopped the current run *)
+Theorem c08_status_flags_trace : forall c tr s oss i os r, run (init_of c) tr = Some (s, oss) ->
+  nth_error oss i = Some os -> In (OWaitRet r) os ->
+  (r = None /\ ~ In LStart (firstn (S i) tr)) \/
+  (exists s0 l, last_stop (init_of c) tr i s0 l /\ flags s0 l r).
+Proof. exact status_flags_trace. Qed.
+Print Assumptions c08_status_flags_trace.
+
+(* errServerStopped is unexported: no Channel returns it from Recv.  Under that assumption on the environment
+   Stopped is reported exactly when the run was ended by a Stop call *)
+Theorem c08_status_flags_nofeed : forall c tr s oss i os r, run (init_of c) tr = Some (s, oss) ->
+  (forall f, In (LFeed f) tr -> f <> FErr SCStop) ->
+  nth_error oss i = Some os -> In (OWaitRet r) os ->
+  (r = None /\ ~ In LStart (firstn (S i) tr)) \/
+  (exists s0 l, last_stop (init_of c) tr i s0 l /\ flags_go s0 l r).
+Proof. exact status_flags_nofeed. Qed.
+Print Assumptions c08_status_flags_nofeed.
+
+(* REFUTED without that assumption (an artefact of the model's type of Recv errors, which contains the sentinel) *)
+Theorem c08_status_stopped_only_by_stop_refuted_without_nofeed :
+  exists oss s, run (init_of ex_cfg) tr_recv_sentinel = Some (s, oss) /\
+    nth_error oss 4 = Some [OClose; OWaitRet (Some SCStop)] /\ st_stopped (Some SCStop) = true /\
+    forall n, ~ In (LRelStop n) tr_recv_sentinel.
+Proof. exact status_stopped_only_by_stop_refuted_without_nofeed. Qed.
+Print Assumptions c08_status_stopped_only_by_stop_refuted_without_nofeed.
+
 (** 4. WaitStatus returns only after every goroutine of the server and every handler has finished. *)
 Theorem c08_wait_after_handlers : forall c s l s' os r, reach c s -> step s l = Some (s', os) ->
   In (OWaitRet r) os ->
@@ -179,6 +261,39 @@ Theorem c08_notifications_drained : forall c s, reach c s -> quiescent s = true 
 Proof. exact notifications_drained. Qed.
 Print Assumptions c08_notifications_drained.
 
+(* composed, from the stop window on: at any later quiescent point (no Start in between) at which no handler is still
+   running and with a positive concurrency limit, the queue is empty; the valid notifications that were queued at
+   the stop have one task each, in queue order, after the tasks that existed; each such task has been handled by its
+   handler (TDone None, with the handler's entry OStart among the observations of the run; rpc.serverInfo has no
+   user handler) or was skipped because its method is unknown; and every runnable notification task that already
+   existed at the stop is done *)
+Theorem c08_notifications_handled : forall c s l s1 os tr s2 oss, reach c s -> step s l = Some (s1, os) ->
+  running s = true -> running s1 = false -> run s1 tr = Some (s2, oss) -> ~ In LStart tr ->
+  quiescent s2 = true -> (forall k t, nth_error (tasks s2) k = Some t -> t_st t <> TRunning) -> 0 < cf_K c ->
+  inq s2 = [] /\
+  length (tasks s2) = length (tasks s) + length (queue_notes (inq s)) /\
+  (forall j m, nth_error (queue_notes (inq s)) j = Some m ->
+     exists t, nth_error (tasks s2) (length (tasks s) + j) = Some t /\ note_handled s (concat (os :: oss)) m t) /\
+  (forall k t, nth_error (tasks s) k = Some t -> runnable t = true -> is_note t = true ->
+     exists t', nth_error (tasks s2) k = Some t' /\ t_st t' = TDone None /\ t_params t' = t_params t).
+Proof. exact notifications_handled. Qed.
+Print Assumptions c08_notifications_handled.
+
+Theorem c08_note_handled_spec : forall s obs m t, note_handled s obs m t <->
+  t_method t = j_method m /\ t_params t = j_params m /\ is_note t = true /\ t_cancelled t = false /\
+  ((assign_method s (j_method m) = None /\ t_st t = TSkip /\ t_pre t = Some err_not_found) \/
+   (assign_method s (j_method m) = Some true /\ t_st t = TDone None /\ t_builtin t = true) \/
+   (assign_method s (j_method m) = Some false /\ t_st t = TDone None /\ t_builtin t = false /\
+    In (OStart (j_params m) false) obs)).
+Proof. exact note_handled_spec. Qed.
+Print Assumptions c08_note_handled_spec.
+
+(* a notification task that is done has no result, and was never cancelled *)
+Theorem c08_note_done : forall c s k t b, reachf c s -> nth_error (tasks s) k = Some t -> is_note t = true ->
+  t_st t = TDone b -> b = None.
+Proof. exact (fun c s k t b R => reachf_note_done c s R k t b). Qed.
+Print Assumptions c08_note_done.
+
 (* the status of every task at a quiescent point *)
 Theorem c08_quiescent_tasks : forall c s k t, reach c s -> quiescent s = true -> nth_error (tasks s) k = Some t ->
   t_st t = TSkip \/ (exists b, t_st t = TDone b) \/ t_st t = TRunning \/ (t_st t = TWaiting /\ sem_free s = 0) \/
@@ -204,6 +319,24 @@ Theorem c08_terminates : forall c s, reach c s -> quiescent s = true -> running 
 Proof. exact c08_terminates_q. Qed.
 Print Assumptions c08_terminates.
 
+(* no callback watcher goroutine outlives the stop: a watcher blocked on its context belongs to a callback that is
+   still registered (invariant); the stop cancels every registered callback, so a stopped server has no blocked
+   watcher; and at a quiescent point nothing is outstanding and every watcher has exited *)
+Theorem c08_watcher_invariant : forall c s i cb0, reachf c s ->
+  nth_error (cbs s) i = Some cb0 -> cb_watch cb0 = WBlocked -> In (cb_id cb0, i) (calls s).
+Proof. exact (fun c s i cb0 R => reachf_inv_watch c s R i cb0). Qed.
+Print Assumptions c08_watcher_invariant.
+
+Theorem c08_stopped_no_blocked_watcher : forall c s i cb0, reach c s -> running s = false ->
+  nth_error (cbs s) i = Some cb0 -> cb_watch cb0 <> WBlocked.
+Proof. exact stopped_no_blocked_watcher. Qed.
+Print Assumptions c08_stopped_no_blocked_watcher.
+
+Theorem c08_no_watcher_left : forall c s, reach c s -> quiescent s = true -> running s = false ->
+  calls s = [] /\ forall i cb0, nth_error (cbs s) i = Some cb0 -> cb_watch cb0 = WDone.
+Proof. exact no_watcher_left. Qed.
+Print Assumptions c08_no_watcher_left.
+
 (* on a channel whose Close unblocks Recv the reader needs no assumption: the closing error is in flight *)
 Theorem c08_terminates_unblock : forall c s, reach c s -> quiescent s = true -> running s = false ->
   cf_unblock c = true ->
@@ -211,6 +344,75 @@ Theorem c08_terminates_unblock : forall c s, reach c s -> quiescent s = true -> 
   wg s = 0 /\ waits s = 0 /\ all_done s.
 Proof. exact terminates_unblock. Qed.
 Print Assumptions c08_terminates_unblock.
+
+(* no livelock: [mu_rel] is a measure of the state (scheduling points the parked goroutines may still pass, records
+   the reader may still consume, with what each may spawn) that EVERY window of a release label strictly decreases,
+   from every reachable state, whatever the configuration; so every sequence of release labels (no action of the
+   environment in between) from a reachable state s has at most [mu_rel s] members ... *)
+Theorem c08_rel_step_decreases : forall c s l s' os, reach c s -> is_rel l = true -> step s l = Some (s', os) ->
+  mu_rel s' < mu_rel s.
+Proof. exact rel_step_decreases. Qed.
+Print Assumptions c08_rel_step_decreases.
+
+Theorem c08_rel_bounded : forall c tr s s' oss, reach c s -> Forall (fun l => is_rel l = true) tr ->
+  run s tr = Some (s', oss) -> length tr + mu_rel s' <= mu_rel s.
+Proof. exact rel_bounded. Qed.
+Print Assumptions c08_rel_bounded.
+
+(* ... so under any scheduler that keeps releasing some enabled goroutine a quiescent state is reached within
+   mu_rel s windows: 'at quiescence' in c08_terminates means 'eventually' *)
+Theorem c08_rel_eventually_quiescent : forall c s, reach c s ->
+  forall n, mu_rel s <= n -> forall pick : state -> label,
+    (forall x, quiescent x = false -> In (pick x) (enabled_rel x)) ->
+    exists tr s' oss, run s tr = Some (s', oss) /\ Forall (fun l => is_rel l = true) tr /\ quiescent s' = true /\
+      length tr <= mu_rel s.
+Proof. exact rel_eventually_quiescent. Qed.
+Print Assumptions c08_rel_eventually_quiescent.
+
+Theorem c08_eventually_terminates : forall c s, reach c s -> forall pick : state -> label,
+  (forall x, quiescent x = false -> In (pick x) (enabled_rel x)) ->
+  exists tr s' oss, run s tr = Some (s', oss) /\ Forall (fun l => is_rel l = true) tr /\ length tr <= mu_rel s /\
+    quiescent s' = true /\
+    (running s' = false -> (rd s' = RExited \/ rd s' = RNone) ->
+     (forall k t, nth_error (tasks s') k = Some t -> t_st t <> TRunning) -> 0 < cf_K c ->
+     wg s' = 0 /\ waits s' = 0 /\ all_done s').
+Proof. exact eventually_terminates. Qed.
+Print Assumptions c08_eventually_terminates.
+
+(* the measure and the release labels, spelled out; every label [enabled_rel] offers is a release label *)
+Theorem c08_mu_rel_spec : forall s, mu_rel s =
+  wsum tw (tasks s) +
+  (rdw (rd s) + wsum fw (ch_in s) + dpw (dp s) + wsum ew (inq s) + wsum uw (units s) + wsum cw (cbs s) +
+   wsum ow (ops s) + (if running s then 2 else 0)).
+Proof. exact mu_rel_spec. Qed.
+Print Assumptions c08_mu_rel_spec.
+
+Theorem c08_weights_spec :
+  (forall t, tw t = match t_st t with TAtAcquire => 2 | TWaiting | TRunning | TAtHandled _ => 1 | TDone _ | TSkip => 0 end) /\
+  (forall u, uw u = match u_st u with UFinished => 0 | _ => 1 end) /\
+  (forall c, cw c = match cb_watch c with WDone => 0 | _ => 1 end) /\
+  (forall o, ow o = match o with OpPush _ _ _ _ => 2 | _ => 1 end) /\
+  (forall bm, ew bm = 5 * Nat.max 1 (length (snd bm))) /\
+  (forall f, fw f = match f with
+                    | FMsg (InMsgs _ ms) | FMsgEOF (InMsgs _ ms) => 1 + 5 * Nat.max 1 (length ms)
+                    | _ => 1
+                    end) /\
+  (forall r, rdw r = match r with RHold f => fw f | _ => 0 end) /\
+  (forall d, dpw d = match d with DAtNext => 1 | DAtBarrier _ => 2 | DBarrierWait _ => 1 | _ => 0 end) /\
+  (forall A (w : A -> nat) x r, wsum w (x :: r) = w x + wsum w r) /\ (forall A (w : A -> nat), wsum w [] = 0).
+Proof. exact weights_spec. Qed.
+Print Assumptions c08_weights_spec.
+
+Theorem c08_is_rel_spec : forall l, is_rel l = true <->
+  l = LRelRead \/ l = LRelNext \/ l = LRelBarrier \/ (exists k, l = LRelAcquire k) \/ (exists k, l = LRelHandled k) \/
+  (exists u, l = LRelDeliver u) \/ (exists n, l = LRelStop n) \/ (exists n, l = LRelCancel n) \/
+  (exists n, l = LRelPush n) \/ (exists i, l = LRelCbWatch i).
+Proof. exact is_rel_spec. Qed.
+Print Assumptions c08_is_rel_spec.
+
+Theorem c08_enabled_rel_is_rel : forall s l, In l (enabled_rel s) -> is_rel l = true.
+Proof. exact enabled_rel_is_rel. Qed.
+Print Assumptions c08_enabled_rel_is_rel.
 
 (* with a concurrency limit of 0 a retained notification queues for a slot for ever *)
 Theorem c08_terminates_K0_refuted :
@@ -260,3 +462,22 @@ Print Assumptions c08_fresh_fields_spec.
 Theorem c08_restart_reachable : forall c s, reach c s -> wg s = 0 -> running s = false -> reach c (started s).
 Proof. exact restart_reachable. Qed.
 Print Assumptions c08_restart_reachable.
+
+(* "after WaitStatus returns the same server can be started": the window in which a WaitStatus call returns ends in
+   a state in which everything has finished, from which Start is enabled, produces no observation and yields the
+   fresh fields; the restarted state is reachable (so every theorem applies to it) ... *)
+Theorem c08_restart_after_wait : forall c s l s' os r, reach c s -> step s l = Some (s', os) -> In (OWaitRet r) os ->
+  r = stop_err s' /\ all_done s' /\ reach c s' /\
+  step s' LStart = Some (started s', []) /\ fresh_fields c (started s') /\ reach c (started s') /\
+  tasks (started s') = tasks s' /\ units (started s') = units s' /\ cbs (started s') = cbs s' /\
+  starts (started s') = S (starts s') /\ closes (started s') = closes s'.
+Proof. exact restart_after_wait. Qed.
+Print Assumptions c08_restart_after_wait.
+
+(* ... and Start stays enabled, with the same outcome, whatever else happens before it is taken *)
+Theorem c08_restart_after_wait_trace : forall c s l s1 os r tr s2 oss, reach c s -> step s l = Some (s1, os) ->
+  In (OWaitRet r) os -> run s1 tr = Some (s2, oss) -> ~ In LStart tr ->
+  step s2 LStart = Some (started s2, []) /\ fresh_fields c (started s2) /\ reach c (started s2) /\
+  tasks (started s2) = tasks s1 /\ units (started s2) = units s1.
+Proof. exact restart_after_wait_trace. Qed.
+Print Assumptions c08_restart_after_wait_trace.
